@@ -144,7 +144,13 @@ func c10pHostileClient(c c10pCase, pr c10pPrediction, r *rig, fail func(string, 
 	var mu sync.Mutex
 	hits := map[string]int{}
 	var sockErrs []string
-	r.Server.Use(func(s sio.ServerSocket, _ *sio.Handshake) any {
+	var hostileSock sio.ServerSocket
+	r.Server.Use(func(s sio.ServerSocket, h *sio.Handshake) any {
+		if string(h.Auth) == `{"hostile":true}` {
+			mu.Lock()
+			hostileSock = s
+			mu.Unlock()
+		}
 		c10pRegister(s.OnEvent, func(e string) { mu.Lock(); hits[e]++; mu.Unlock() })
 		s.OnEvent("rt", func(v int, ack func(int)) { ack(v) })
 		s.OnError(func(err error) { mu.Lock(); sockErrs = append(sockErrs, err.Error()); mu.Unlock() })
@@ -175,11 +181,18 @@ func c10pHostileClient(c c10pCase, pr c10pPrediction, r *rig, fail func(string, 
 		p, _ := eioparser.NewPacket(eioparser.PacketTypeMessage, fr.Binary, []byte(fr.Data))
 		cli.Send(p)
 	}
-	send(c10pFrame{Data: "0"})
+	send(c10pFrame{Data: `0{"hostile":true}`})
 	settle(time.Second)
 	mu.Lock()
 	joined := len(inbound) == 1 && strings.HasPrefix(inbound[0], "0{")
+	hs := hostileSock
 	mu.Unlock()
+	// an acknowledgement is outstanding on the server's socket while the hostile frames arrive (its id is the first of the namespace: 0)
+	q1 := 0
+	if hs != nil {
+		hs.Emit("q1", func(v string) { mu.Lock(); q1++; mu.Unlock() })
+		settle(100 * time.Millisecond)
+	}
 	if !joined || !healthy.Connected() {
 		return fail("rig-connect", fmt.Sprintf("raw peer did not join / (inbound %v) or the healthy client did not connect", inbound))
 	}
@@ -212,6 +225,34 @@ func c10pHostileClient(c c10pCase, pr c10pPrediction, r *rig, fail func(string, 
 		mu.Unlock()
 		if !answered && closedNow == "" {
 			return fail("connection-not-wedged", fmt.Sprintf("after the sequence the connection is open, the decoder is between packets, but a valid ack-carrying event is not answered (inbound %v)", inbound))
+		}
+	}
+	// the server can still use the acknowledgement machinery of the offending socket: a second request returns, and is answered when the peer answers it
+	if closedNow == "" && hs != nil && hs.Connected() {
+		q2 := 0
+		hs.Emit("q2", func(v string) { mu.Lock(); q2++; mu.Unlock() }) // (a mutex left held parks this goroutine: watchdog + real-clock replay)
+		settle(200 * time.Millisecond)
+		mu.Lock()
+		id := ""
+		for _, in := range inbound {
+			if strings.HasSuffix(in, `["q2"]`) && strings.HasPrefix(in, "2") {
+				id = strings.TrimSuffix(strings.TrimPrefix(in, "2"), `["q2"]`)
+			}
+		}
+		stillOpen := closed == ""
+		mu.Unlock()
+		if stillOpen && pr.addErrAt < 0 && pr.idle && !pr.control {
+			if id == "" {
+				return fail("connection-not-wedged", fmt.Sprintf("after the sequence a server-side Emit with an ack function did not reach the peer (inbound %v)", inbound))
+			}
+			send(c10pFrame{Data: "3" + id + `["fine"]`})
+			settle(500 * time.Millisecond)
+			mu.Lock()
+			n := q2
+			mu.Unlock()
+			if n != 1 {
+				return fail("connection-not-wedged", fmt.Sprintf("after the sequence the peer answered the server's second ack-carrying event (id %s) but the callback ran %d times", id, n))
+			}
 		}
 	}
 	// other connections and later connections keep working
@@ -271,7 +312,11 @@ func c10pHostileServer(c c10pCase, pr c10pPrediction, fail func(string, string) 
 		EIO: eio.ClientConfig{Transports: c01Transports(c.Transport), HTTPTransport: tr, WebSocketDialOptions: &websocket.DialOptions{HTTPClient: &http.Client{Transport: tr}}}})
 	var mgrClose, mgrErrs, disconnects []string
 	hits := map[string]int{}
-	m.OnClose(func(reason sio.Reason, err error) { mu.Lock(); mgrClose = append(mgrClose, fmt.Sprintf("%s:%v", reason, err)); mu.Unlock() })
+	m.OnClose(func(reason sio.Reason, err error) {
+		mu.Lock()
+		mgrClose = append(mgrClose, fmt.Sprintf("%s:%v", reason, err))
+		mu.Unlock()
+	})
 	m.OnError(func(err error) { mu.Lock(); mgrErrs = append(mgrErrs, err.Error()); mu.Unlock() })
 	sock := m.Socket("/", nil)
 	c10pRegister(sock.OnEvent, func(e string) { mu.Lock(); hits[e]++; mu.Unlock() })
@@ -303,6 +348,9 @@ func c10pHostileServer(c c10pCase, pr c10pPrediction, fail func(string, string) 
 		teardown()
 		return res
 	}
+	// an acknowledgement is outstanding on the client's socket while the hostile frames arrive (its id is the socket's first: 0)
+	sock.Emit("q1", func(v string) {})
+	settle(100 * time.Millisecond)
 	for _, fr := range c.Frames {
 		sendTo(ss, fr)
 		tick()
@@ -332,6 +380,30 @@ func c10pHostileServer(c c10pCase, pr c10pPrediction, fail func(string, string) 
 			res = fail("connection-not-wedged", fmt.Sprintf("after the sequence the client reports no close, but an event emitted now never reaches the server (from client %v)", fromClient))
 		}
 	}
+	if res == nil && pr.addErrAt < 0 && pr.idle && !pr.control && nClose == 0 && nDisc == 0 {
+		// the client can still use its acknowledgement machinery: a second request returns, and is answered when the server answers it
+		q2 := 0
+		sock.Emit("q2", func(v string) { mu.Lock(); q2++; mu.Unlock() })
+		settle(200 * time.Millisecond)
+		mu.Lock()
+		id := ""
+		for _, d := range fromClient {
+			if strings.HasSuffix(d, `["q2"]`) && strings.HasPrefix(d, "2") {
+				id = strings.TrimSuffix(strings.TrimPrefix(d, "2"), `["q2"]`)
+			}
+		}
+		mu.Unlock()
+		if id != "" {
+			sendTo(ss, c10pFrame{Data: "3" + id + `["fine"]`})
+			settle(500 * time.Millisecond)
+		}
+		mu.Lock()
+		n := q2
+		mu.Unlock()
+		if id == "" || n != 1 {
+			res = fail("connection-not-wedged", fmt.Sprintf("after the sequence the client's next ack-carrying event (id %q) was answered by the server, its callback ran %d times (from client %v)", id, n, fromClient))
+		}
+	}
 	// nothing is wedged: every call returns (a self-deadlock parks this goroutine on a mutex; the watchdog and the real-clock replay decide)
 	sock.Emit("x", 1)
 	_ = sock.Connected()
@@ -359,7 +431,7 @@ var c10pRaw = []string{``, `9`, `7`, `x`, `2`, `3`, `5`, `6`, `5-`, `51-`, `5x-[
 func genC10pFrames(t *rapid.T) []c10pFrame {
 	var out []c10pFrame
 	for i, n := 0, rapid.IntRange(1, 4).Draw(t, "packets"); i < n; i++ {
-		switch rapid.IntRange(0, 4).Draw(t, "kind") {
+		switch rapid.IntRange(0, 5).Draw(t, "kind") {
 		case 0: // raw hostile constant
 			out = append(out, c10pFrame{Data: rapid.SampledFrom(c10pRaw).Draw(t, "raw"), Binary: rapid.IntRange(0, 5).Draw(t, "bin") == 0})
 		case 1: // a text event for a family handler with a drawn JSON argument list
@@ -390,6 +462,18 @@ func genC10pFrames(t *rapid.T) []c10pFrame {
 				}
 				out = append(out, c10pFrame{Data: strings.ToValidUTF8(string(fr), "?"), Binary: k > 0}) // the case must survive its JSON form
 			}
+		case 5: // an ACK packet: for the id that is outstanding on the receiving side (0), or for one that was never issued, with a drawn payload
+			id := rapid.SampledFrom([]string{"0", "0", "0", "7", "18446744073709551615"}).Draw(t, "ackID")
+			switch rapid.IntRange(0, 3).Draw(t, "ackKind") {
+			case 0:
+				out = append(out, c10pFrame{Data: "3" + id + "[" + rapid.SampledFrom(c10pJSONArgs).Draw(t, "ackArg") + "]"})
+			case 1:
+				out = append(out, c10pFrame{Data: "3" + id + rapid.SampledFrom([]string{``, `[`, `["x"`, `{}`, `"x"`, `[1,`, `[["x"]]`}).Draw(t, "ackRaw")})
+			case 2:
+				out = append(out, c10pFrame{Data: "61-" + id + `[{"_placeholder":true,"num":0}]`}, c10pFrame{Data: "att", Binary: true})
+			case 3:
+				out = append(out, c10pFrame{Data: "3" + id + `["fine"]`})
+			}
 		case 4: // a valid event, so that hostile frames also come between and after valid traffic
 			out = append(out, c10pFrame{Data: fmt.Sprintf(`2["f%d"]`, rapid.SampledFrom([]int{5, 2}).Draw(t, "validFamily"))})
 		}
@@ -406,9 +490,9 @@ func TestC10_Process(t *testing.T) {
 	ev := NewEv(t, "C10", c10pCheck, "rapid on the virtual-time network, two legs x {polling, websocket}: (hostile-client) a hand-written client joins / on the real server and sends 1..4 hostile packets (1..12 frames); "+
 		"(hostile-server) a hand-written server answers the real client's CONNECT and then sends the same kind of sequence. Packets: 41 raw hostile constants (unknown types, missing counts, bad namespaces, ids out of range, "+
 		"truncated JSON, control packets), text events for ten handler-signature families with arguments from 21 JSON snippets (placeholder look-alikes, surrogates, huge numbers), binary events with hostile counts / "+
-		"placeholder numbers and 0..3 attachment frames (some as text, some missing), mutated valid packets of the parser-level generator, valid events in between. A fresh parser of the repository fed the same frames "+
+		"placeholder numbers and 0..3 attachment frames (some as text, some missing), mutated valid packets of the parser-level generator, ACK packets (well-formed, truncated, wrongly typed, binary) for an acknowledgement that is outstanding on the receiving side or was never issued, valid events in between. A fresh parser of the repository fed the same frames "+
 		"predicts the decoder's verdict; oracle: a header-level rejection => the connection is closed (server) / close or disconnect handlers run (client); an undecodable family event => an error handler runs or the "+
-		"connection is closed; an open connection whose decoder is between packets still answers a valid ack-carrying event; a healthy client on another connection and a new client still round-trip; every API call "+
+		"connection is closed; an open connection whose decoder is between packets still answers a valid ack-carrying event, and the server's own next ack-carrying event to it returns and is answered; a healthy client on another connection and a new client still round-trip; every API call "+
 		"afterwards returns (a self-deadlock is caught by the watchdog and confirmed on the real clock); no crash (journal). non-trivial = the sequence contains a header-level rejection or an undecodable event")
 	rapidGuard(t, "C10", c10pCheck)
 	runRapid(t, c10pCheck, tierN(8000, 80000), func(t *rapid.T) {
